@@ -318,6 +318,12 @@ func semanticMutants(in *instance) []mutant {
 	return out
 }
 
+// two 512-bit safe Blum primes (p = 2q+1, q prime): genuine, but half the size a Paillier prime must have
+const (
+	smallSafeP = "F3A440F9521E83C40368697978EE93CC5D4C96A4080799AB0BD876841A69E59FBC6A966AA85AAF3C34E8C858914CF4C7E95D47DBA0704012B484F43B7F76017B"
+	smallSafeQ = "C4094476A6A6DF91D937A0CAA53C4CE45E80F61EDD41AEDF0F07F45CDCEDD4310B4562238E7A093118B43B10A5D91E49019BA62E59E9283F71A1EEBE509C00E7"
+)
+
 func cmpMutants(in *instance, t *tree, wrap func([]byte) []byte) []mutant {
 	var out []mutant
 	w := func(ms []mutant) {
@@ -372,6 +378,37 @@ func cmpMutants(in *instance, t *tree, wrap func([]byte) []byte) []mutant {
 	})
 	pub, _ := t.get("/Public").([]interface{})
 	prime2048, _ := new(big.Int).SetString(rfc3526, 16)
+	// COORDINATED wrong-size material: both Paillier primes replaced by genuine safe Blum primes of HALF the size,
+	// written with leading zeros so that the byte strings keep their length, and the party's own public entry made
+	// consistent with them (N = p'q', Pedersen s = t^k, t a square, modulo the new N).  Every single-field check holds
+	// except the size of the primes / the modulus.
+	{
+		sp, _ := new(big.Int).SetString(smallSafeP, 16)
+		sq, _ := new(big.Int).SetString(smallSafeQ, 16)
+		if sp.ProbablyPrime(20) && sq.ProbablyPrime(20) && new(big.Int).Rsh(sp, 1).ProbablyPrime(20) && new(big.Int).Rsh(sq, 1).ProbablyPrime(20) {
+			n2 := new(big.Int).Mul(sp, sq)
+			tt := new(big.Int).Exp(big.NewInt(0x10001), big.NewInt(2), n2)
+			ss := new(big.Int).Exp(tt, big.NewInt(0x3039), n2)
+			w([]mutant{{Path: "/P+Q+own-entry", Op: "half-size-primes-zero-padded-consistent", Rule: "paillier prime of wrong size", make: func() []byte {
+				r, _ := faults.Set(t.root, "/P", bigBytes(sp, 128), false)
+				r, _ = faults.Set(r, "/Q", bigBytes(sq, 128), false)
+				for i := range pub {
+					ent, _ := pub[i].(map[interface{}]interface{})
+					if ent == nil {
+						continue
+					}
+					if id, _ := ent["ID"].(string); id != string(in.id) {
+						continue
+					}
+					base := fmt.Sprintf("/Public/[%d]", i)
+					r, _ = faults.Set(r, base+"/N", bigBytes(n2, 256), false)
+					r, _ = faults.Set(r, base+"/S", bigBytes(ss, 256), false)
+					r, _ = faults.Set(r, base+"/T", bigBytes(tt, 256), false)
+				}
+				return faults.Encode(r)
+			}}})
+		}
+	}
 	for i := range pub {
 		i := i
 		ent, _ := pub[i].(map[interface{}]interface{})
